@@ -104,8 +104,22 @@ def one_history(res, rng, files, api):
     if api == 'dicts' and rng.random() < 0.5:
         tp.update({9999991: 77})
         pn.update({77: 'stale'})
+    # a third of the histories hand over the SAME stream object every time, emptied and refilled with the next dump (a
+    # scratch buffer / a temp file that is rewritten): what an object held before says nothing about what it holds now
+    refilled = io.BytesIO() if len(files) > 1 and rng.random() < 0.34 else None
+
+    def open_stream(data):
+        if refilled is None:
+            return wire.stream(data)
+        refilled.seek(0)
+        refilled.truncate(0)
+        refilled.write(data)
+        refilled.seek(0)
+        return refilled
+    if refilled is not None:
+        res.count('histories_on_one_refilled_stream_object')
     for i, f in enumerate(files):
-        where = f'parse {i + 1}/{len(files)} via {api} ({f["kind"]})'
+        where = f'parse {i + 1}/{len(files)} via {api} ({f["kind"]})' + (', same stream object refilled' if refilled else '')
         if i and rng.random() < 0.4:
             # between two parses the shared tables are written by their other users (the trace decoders)
             target = (top.threads_pids, top.pids_names) if api == 'top' else (tp, pn)
@@ -113,10 +127,10 @@ def one_history(res, rng, files, api):
             target[1][rng.randrange(1, 50)] = 'written-between-parses'
             res.count('tables_dirtied_between_parses')
         if api == 'top':
-            events, exc = drive(lambda: top.kevents(wire.stream(f['data'])))
+            events, exc = drive(lambda: top.kevents(open_stream(f['data'])))
             tables = (top.threads_pids, top.pids_names)
         else:
-            events, exc = drive(lambda: (e for e in KdBufParser(tp, pn).parse(wire.stream(f['data']))
+            events, exc = drive(lambda: (e for e in KdBufParser(tp, pn).parse(open_stream(f['data']))
                                          if hasattr(e, 'debugid')))
             tables = (tp, pn)
         if f['kind'] == 'v2':
@@ -180,6 +194,58 @@ def interleaved_parses(res, rng, kinds=('v2', 'v2'), prefix='c02'):
                           f'{dict(list(want[0].items())[:4])} / {dict(list(want[1].items())[:4])}',
                           {'files': [x['data'] for x in files]})
             return
+
+
+def threaded_parses(res, rng, kinds=('v2', 'v2', 'v3'), prefix='c02', rounds=4):
+    """Several OS threads, each parsing its own dump with its own parser object and its own stream, at the same time
+    (the interpreter switches threads every few bytecodes): every thread still reads the fields of its own records and
+    the thread map of its own dump."""
+    import sys
+    import threading
+    from pykdebugparser.kd_buf_parser import KdBufParser
+    from props import c03
+    files = [gen.gen_v2(rng, first_nonzero=True, m=rng.choice((5, 40, 300))) if k == 'v2' else
+             gen.gen_v3(rng, m=rng.choice((5, 40, 300)), n=2) for k in kinds]
+    wants = [[wire.ref_tuple(r) for r in f['records']] for f in files]
+    tables = [c03.expected_tables(f) if f['kind'] == 'v3' else wire.threadmap_model(f['entries']) for f in files]
+    failures = []
+    barrier = threading.Barrier(len(files))
+
+    def worker(i):
+        try:
+            barrier.wait(timeout=30)
+            for _ in range(rounds):
+                p = KdBufParser({}, {})
+                got = [wire.event_tuple(e) for e in p.parse(io.BytesIO(files[i]['data'])) if hasattr(e, 'debugid')]
+                if got != wants[i]:
+                    k = next((j for j, (a, b) in enumerate(zip(got, wants[i])) if a != b), min(len(got), len(wants[i])))
+                    failures.append(f'event {k} of the dump of thread {i} ({files[i]["kind"]}, {len(wants[i])} records) does '
+                                    f'not carry the fields of its own record')
+                    return
+                if prefix == 'c02' and (dict(p.threads_pids), dict(p.pids_names)) != (tables[i][0], tables[i][1]):
+                    failures.append(f'tables of the parser of thread {i} are not the thread map of its dump')
+                    return
+        except Exception as x:                                       # noqa
+            failures.append(f'thread {i} raised {x!r} at {core.short_tb(x)}')
+
+    threads = [threading.Thread(target=worker, args=(i,), daemon=True) for i in range(len(files))]
+    old = sys.getswitchinterval()
+    sys.setswitchinterval(1e-6)
+    try:
+        for t in threads:
+            t.start()
+        for t in threads:
+            t.join(timeout=300)
+    finally:
+        sys.setswitchinterval(old)
+    if any(t.is_alive() for t in threads):
+        res.inconclusive.append('concurrent parses did not finish within the watchdog')
+        return
+    res.count('threaded_parses', len(files) * rounds)
+    if failures:
+        res.violation(f'{prefix}-differs-between-concurrent-threads', f'{len(files)} OS threads each parsing its own dump with its '
+                      f'own parser and stream: {failures[0]} ({len(failures)} thread(s) affected)',
+                      {'files': [f['data'] for f in files]})
 
 
 def deferred_parses(res, rng):
@@ -272,6 +338,7 @@ def run(ctx):
         for _ in range(ctx.pick(12, 300)):
             deferred_parses(res, rng)
             interleaved_parses(res, rng, rng.choice((('v2', 'v2'), ('v2', 'v3'), ('v3', 'v3'), ('v2', 'v2', 'v3'))))
+            threaded_parses(res, rng, rng.choice((('v2', 'v2'), ('v2', 'v3'), ('v3', 'v3'), ('v2', 'v2', 'v3'))))
         # large dumps: record counts beyond 8- and 16-bit limits, thread maps of hundreds of entries
         for m in ctx.pick((300, 5000), (70000, 300, 66000)):
             entries = [(rng.getrandbits(64), rng.getrandbits(32), rng.choice(gen.NAMES), b'') for _ in range(rng.choice((300, 1000)))]
@@ -302,6 +369,8 @@ def run(ctx):
     res.require('histories_with_reuse', 1)
     res.require('related_map_histories', 10)
     res.require('interleaved_parses', 10)
+    res.require('histories_on_one_refilled_stream_object', 10)
+    res.require('threaded_parses', 6)
     res.require('deferred_parses_checked', 10)
     res.require('contract_evaluations', 1)
     return res
